@@ -3,7 +3,7 @@
 # hybrid /XRefStm), run through the real qpdf and the in-process driver, and compared with the extracted model
 # (coq/Sys/Guards.v) on the same graph: outcome category, number of pages / entries / helpers / warnings.
 # Plus the bound: CPU time and peak RSS of every qpdf run stay within a budget linear in the input size.
-import os, re, resource, subprocess, time
+import itertools, os, re, resource, subprocess, time
 import common, pdfgen
 from pdfgen import D, Ref, Str, Name, Stream
 
@@ -145,42 +145,71 @@ def pages_observe(run):
 
 
 # ------------------------------------------------------------------ /Prev chains
+# A case is a list of cross-reference sections.  Every section has `lead` white-space bytes directly in front of it (after a
+# non-white-space junk byte) and, for a table, `gap` white-space bytes after the keyword.  A target (startxref, /Prev,
+# /XRefStm) is None, "eof" / "hdr" / "neg" (no section there), or (section index, back): the byte `back` bytes in front of
+# the section's first byte - back = 0 is the exact offset, 1..lead a white-space byte that read_xref skips, lead + 1 the junk.
+# read_xref records the offset it was ASKED to read in its `visited` set, so the aliases of one section are different
+# members; the model (c4_xlocate / c4_xwalk) says what that means for every such graph.
+
+WS = b"\n \r\t\n\n \r"
+
+
+def xsec(kind, prev=None, stm=None, bad=False, lead=3, gap=1):
+    return {"kind": kind, "bad": bad, "stm": stm, "prev": prev, "lead": lead, "gap": gap}
+
 
 def gen_xref(rng, quick):
     cases = []
+
+    def add(tag, secs, start):
+        cases.append({"kind": "xref", "tag": tag, "secs": secs, "start": start})
+
+    def rtarget(m, secs):
+        i = rng.randrange(m)
+        r = rng.random()
+        back = 0 if r < 0.55 else rng.randrange(0, secs[i]["lead"] + 2)
+        return (i, back)
     for _ in range(45 if quick else 600):
         n = rng.randrange(1, 7)
-        secs = []
-        for i in range(n):
-            kind = "T" if rng.random() < 0.6 else "S"
-            secs.append({"kind": kind, "bad": rng.random() < 0.07, "stm": None, "prev": None, "alias_of": None})
-        # aliases: the same table reached through white space in front of it
-        for i in range(n):
-            if secs[i]["kind"] == "T" and rng.random() < 0.15:
-                # the white-space heuristic of read_xref works for exactly ONE extra byte: it reads the table at
-                # xref_offset + skip with the ORIGINAL offset, so two bytes of white space land inside "xref"
-                secs.append({"kind": "T", "alias_of": i, "delta": rng.choice([1, 1, 2])})
-        m = len(secs)
+        secs = [xsec("T" if rng.random() < 0.6 else "S", bad=rng.random() < 0.07, lead=rng.choice([0, 1, 1, 2, 3, 3, 8]), gap=rng.choice([1, 1, 2, 3]))
+                for i in range(n)]
         for i in range(n):
             r = rng.random()
-            secs[i]["prev"] = None if r < 0.3 else ("eof" if r < 0.36 else "hdr" if r < 0.4 else "neg" if r < 0.43 else rng.randrange(m))
+            secs[i]["prev"] = None if r < 0.25 else ("eof" if r < 0.3 else "hdr" if r < 0.33 else "neg" if r < 0.36 else rtarget(n, secs))
             if secs[i]["kind"] == "T" and rng.random() < 0.3:
-                r = rng.random()
-                secs[i]["stm"] = "eof" if r < 0.1 else rng.randrange(m)
-        cases.append({"kind": "xref", "tag": "random", "secs": secs, "start": rng.randrange(m)})
+                secs[i]["stm"] = "eof" if rng.random() < 0.1 else rtarget(n, secs)
+        add("random", secs, rtarget(n, secs))
+    # aimed: a loop that is closed only through the white space in front of a section already read.  Self-loops: /Prev names
+    # the section's own first byte or the byte 1, 2, 3 in front of it (4 = the junk byte); entered exactly or through an alias
+    for kind, gap in (("T", 1), ("T", 2), ("T", 3), ("S", 1)):
+        for back in (0, 1, 2, 3, 4):
+            for sback in ((0, 1) if quick else (0, 1, 2, 3)):
+                add("ws-self-%s%d-prev-%d-start-%d" % (kind, gap, back, sback), [xsec(kind, prev=(0, back), gap=gap)], (0, sback))
+    # two sections that name each other 0..3 bytes early, every pair of kinds
+    pairs = [(k1, k2) for k1 in range(4) for k2 in range(4)]
+    for ka in "TS":
+        for kb in "TS":
+            for k1, k2 in (rng.sample(pairs, 4) + [(1, 0), (0, 1)] if quick else pairs):
+                add("ws-pair-%s%s-%d-%d" % (ka, kb, k1, k2), [xsec(ka, prev=(1, k1), gap=2), xsec(kb, prev=(0, k2), gap=2)], (0, rng.choice([0, 0, 1])))
+    # a long run of white space: entered at its first byte, at its last byte and one byte in front of it (the junk byte)
+    for kind in "TS":
+        for back in (7, 8, 9):
+            add("ws-deep-%s-%d" % (kind, back), [xsec(kind, lead=8, gap=3)], (0, back))
+    # three sections in a cycle, each named through a different alias; entered through a fourth
+    for kinds in ("SSS", "TST", "STT"):
+        add("ws-cycle3-" + kinds, [xsec(kinds[0], prev=(1, 1), gap=2), xsec(kinds[1], prev=(2, 2), gap=2), xsec(kinds[2], prev=(0, 1), gap=2)],
+            (0, rng.choice([0, 2])))
+    # hybrid: the /XRefStm names white space in front of the stream; the stream's own /Prev (ignored) loops
+    add("ws-hybrid-stm", [xsec("T", stm=(1, 2), prev=(1, 1)), xsec("S", prev=(0, 1))], (0, 1))
     # long chain, and a long chain closed into a loop
     k = 40 if quick else 400
     for loop in (False, True):
-        secs = [{"kind": "T" if i % 3 else "S", "bad": False, "stm": None, "prev": (i + 1 if i + 1 < k else (0 if loop else None)), "alias_of": None}
-                for i in range(k)]
-        cases.append({"kind": "xref", "tag": "chain-%d%s" % (k, "-loop" if loop else ""), "secs": secs, "start": 0})
+        secs = [xsec("T" if i % 3 else "S", prev=((i + 1, i % 2) if i + 1 < k else ((0, 1) if loop else None)), lead=1 + i % 3) for i in range(k)]
+        add("chain-%d%s" % (k, "-loop" if loop else ""), secs, (0, 0))
     # hybrid loop: table -> /XRefStm stream whose /Prev points back (ignored), and a stream in the main chain that does loop
-    cases.append({"kind": "xref", "tag": "hybrid-stm-prev-ignored", "start": 0,
-                  "secs": [{"kind": "T", "bad": False, "stm": 1, "prev": None, "alias_of": None},
-                           {"kind": "S", "bad": False, "stm": None, "prev": 0, "alias_of": None}]})
-    cases.append({"kind": "xref", "tag": "hybrid-loop", "start": 0,
-                  "secs": [{"kind": "T", "bad": False, "stm": 1, "prev": 1, "alias_of": None},
-                           {"kind": "S", "bad": False, "stm": None, "prev": 0, "alias_of": None}]})
+    add("hybrid-stm-prev-ignored", [xsec("T", stm=(1, 0)), xsec("S", prev=(0, 0))], (0, 0))
+    add("hybrid-loop", [xsec("T", stm=(1, 0), prev=(1, 0)), xsec("S", prev=(0, 0))], (0, 0))
     return cases
 
 
@@ -188,9 +217,8 @@ PADW = 10
 
 
 def xref_pdf(c):
-    """returns (bytes, offsets of the sections, {section: (marker object, offset of its copy of object 50)})"""
+    """returns (bytes, first byte of every section, {section: offset of its copy of object 50}, the "eof" target)"""
     secs = c["secs"]
-    real = [i for i, s in enumerate(secs) if s.get("alias_of") is None]
     out = bytearray(b"%PDF-1.5\n%\xbf\xf7\xa2\xfe\n")
     objs = {}
 
@@ -203,14 +231,13 @@ def xref_pdf(c):
     copy50 = {}
     MB = 60                      # marker object of section i = MB + i, its xref stream object = MB + len(secs) + i
     SB = MB + len(secs)
-    for i in real:
+    for i in range(len(secs)):
         put(MB + i, b"%d" % (1000 + i))
         copy50[i] = len(out)
         out.extend(b"50 0 obj\n%d\nendobj\n" % (2000 + i))
     size = SB + len(secs) + 5
     # layout pass: every section has a fixed length (numbers are zero padded), so offsets are known before the targets
     sec_off = {}
-    chunks = {}
 
     def target(v, filesize):
         if v is None:
@@ -221,15 +248,16 @@ def xref_pdf(c):
             return 5
         if v == "neg":
             return -7
-        return sec_off[v]
+        return sec_off[v[0]] - v[1]
 
     def render(i, filesize):
         s = secs[i]
         prev = target(s["prev"], filesize)
         stm = target(s["stm"], filesize)
         entries = [(0, None), (1, objs[1]), (2, objs[2]), (3, objs[3]), (50, copy50[i]), (MB + i, objs[MB + i])]
+        head = b"%J" + (WS * (1 + s["lead"] // len(WS)))[:s["lead"]]
         if s["kind"] == "T":
-            b = bytearray(b"\n\n\nxref\n")
+            b = bytearray(head + b"xref" + (b"\n \n" * s["gap"])[:s["gap"] - 1] + b"\n")
             for num, off in entries:
                 b += b"%d 1\n" % num
                 if off is None:
@@ -240,11 +268,11 @@ def xref_pdf(c):
                     b += b"%010d 00000 n \n" % off
             b += b"trailer\n<< /Size %d /Root 1 0 R" % size
             if stm is not None:
-                b += b" /XRefStm %0*d" % (PADW, stm)
+                b += b" /XRefStm %0*d" % (PADW, stm) if stm >= 0 else b" /XRefStm %*d" % (PADW, stm)
             if prev is not None:
                 b += b" /Prev %0*d" % (PADW, prev) if prev >= 0 else b" /Prev %*d" % (PADW, prev)
             b += b" >>\n"
-            return bytes(b), 3
+            return bytes(b), len(head)
         data = b"".join((b"\0" + b"\0" * 4 + b"\xff\xff") if off is None else (b"\1" + off.to_bytes(4, "big") + b"\0\0") for num, off in entries)
         idx = " ".join("%d 1" % num for num, off in entries)
         dic = b"<< /Type /XRef /Size %d /Root 1 0 R /W [%s] /Index [%s] /Length %d" % (
@@ -252,77 +280,98 @@ def xref_pdf(c):
         if prev is not None:
             dic += b" /Prev %0*d" % (PADW, prev) if prev >= 0 else b" /Prev %*d" % (PADW, prev)
         dic += b" >>"
-        b = b"\n\n\n%d 0 obj\n" % (SB + i) + dic + b"\nstream\n" + data + b"\nendstream\nendobj\n"
-        return b, 3
+        b = head + b"%d 0 obj\n" % (SB + i) + dic + b"\nstream\n" + data + b"\nendstream\nendobj\n"
+        return b, len(head)
     # first pass with dummy targets to learn the lengths
-    for i in real:
+    for i in range(len(secs)):
         sec_off[i] = 0
-    for i, s in enumerate(secs):
-        if s.get("alias_of") is not None:
-            sec_off[i] = 0
     pos = len(out)
-    for i in real:
+    offs = {}
+    for i in range(len(secs)):
         b, lead = render(i, 0)
-        sec_off[i] = pos + lead
+        offs[i] = pos + lead
         pos += len(b)
+    sec_off = offs
     filesize = pos + 40
-    for i, s in enumerate(secs):
-        if s.get("alias_of") is not None:
-            sec_off[i] = sec_off[s["alias_of"]] - s["delta"]
-    for i in real:
+    for i in range(len(secs)):
         b, lead = render(i, filesize)
         assert len(out) + lead == sec_off[i], (len(out), lead, sec_off[i])
         out.extend(b)
-    out.extend(b"startxref\n%d\n%%%%EOF\n" % sec_off[c["start"]])
+    start = target(c["start"], filesize)
+    out.extend(b"startxref\n%d\n%%%%EOF\n" % start)
     return bytes(out), sec_off, copy50, filesize + 1000
 
 
-def xref_model_line(c, sec_off, eof_target):
-    secs = c["secs"]
+def xref_target(v, sec_off, eof_target):
+    if v is None:
+        return 0
+    if v == "eof":
+        return eof_target
+    if v == "hdr":
+        return 5
+    if v == "neg":
+        return -7
+    return sec_off[v[0]] - v[1]
 
-    def tz(v):
-        if v is None:
-            return 0
-        if v == "eof":
-            return eof_target
-        if v == "hdr":
-            return 5
-        if v == "neg":
-            return -7
-        return sec_off[v]
+
+def xref_model_line(c, sec_off, eof_target):
     parts = []
-    for i, s in enumerate(secs):
-        r = secs[s["alias_of"]] if s.get("alias_of") is not None else s
-        bad = r["bad"] or (s.get("alias_of") is not None and s["delta"] != 1)
-        parts.append("%d:%s:%d:%d:%d" % (sec_off[i], r["kind"], 1 if bad else 0, tz(r["stm"]), tz(r["prev"])))
-    return "c4xref %d %s" % (sec_off[c["start"]], ";".join(parts))
+    for i, s in enumerate(c["secs"]):
+        parts.append("%d:%s:%d:%d:%d:%d:%d" % (sec_off[i], s["kind"], 1 if s["bad"] else 0, xref_target(s["stm"], sec_off, eof_target),
+                                               xref_target(s["prev"], sec_off, eof_target), s["lead"], s["gap"]))
+    return "c4xref %d %s" % (xref_target(c["start"], sec_off, eof_target), ";".join(parts))
+
+
+def xref_candidates(c, sec_off, eof_target):
+    """offsets that a startxref / /Prev of this file can name: the driver's record of read_xref's reads is cut down to these"""
+    cand = {5, -7, eof_target}
+    for i, s in enumerate(c["secs"]):
+        cand.update(range(sec_off[i] - s["lead"] - 1, sec_off[i] + 1))
+    return cand
 
 
 def xref_expect(c, mout, sec_off, copy50):
+    """(what --show-xref shows, what the driver's walk shows)"""
     w = mout.split()
+    kv = dict(x.split("=") for x in w[2:])
+    walk = "%s v=%s ws=%s" % (w[0], kv["v"], kv["ws"])
     if w[0] != "ok":
-        return w[0]
+        return "%s ws=%s" % (w[0], kv["ws"]), walk
     reads = [int(x) for x in w[1].split(",")] if w[1] != "-" else []
-    by_off = {}
-    for i, s in enumerate(c["secs"]):
-        by_off[sec_off[i]] = s["alias_of"] if s.get("alias_of") is not None else i
+    by_off = {sec_off[i]: i for i in range(len(c["secs"]))}
     order = [by_off[o] for o in reads]
     first = order[0]
-    return "ok 50@%d markers=%s" % (copy50[first], ids(sorted(set(60 + i for i in order))))
+    return "ok 50@%d markers=%s ws=%s" % (copy50[first], ids(sorted(set(60 + i for i in order))), kv["ws"]), walk
 
 
 def xref_observe(run, nsecs):
     rc, so, se = run(["--show-xref", "--suppress-recovery"])
+    ws = " ws=%d" % se.count(b"extraneous whitespace seen before xref")
     if rc in (0, 3):
         m = re.search(rb"^50/0: uncompressed; offset = (\d+)", so, re.M)
         allobj = sorted(set(int(x) for x in re.findall(rb"^(\d+)/0: uncompressed", so, re.M)))
         marks = [x for x in allobj if 60 <= x < 60 + nsecs]
-        return "ok 50@%s markers=%s" % (m.group(1).decode() if m else "?", ids(marks))
-    if b"loop detected following xref tables" in se:
-        return "loop"
-    if b"xref not found" in se or b"error reading xref" in se or b"can't find startxref" in se:
-        return "notfound"
-    return "damaged"
+        obs = "ok 50@%s markers=%s" % (m.group(1).decode() if m else "?", ids(marks)) + ws
+    elif b"loop detected following xref tables" in se:
+        obs = "loop" + ws
+    elif b"xref not found" in se or b"error reading xref" in se or b"can't find startxref" in se:
+        obs = "notfound" + ws
+    else:
+        obs = "damaged" + ws
+    # the same file with recovery: only the documented outcome and the budgets are looked at (run() records the statistics)
+    if rc not in (-999, -998):
+        run(["--check"])
+    return obs
+
+
+def xref_walk_observed(dout, cand):
+    """driver line `<outcome> v=<offsets> ws=<n> warns=<n>` cut down to the candidate offsets"""
+    w = dout.split()
+    if len(w) < 3 or not w[1].startswith("v="):
+        return dout[:200]
+    v = [int(x) for x in w[1][2:].split(",")] if w[1] != "v=-" else []
+    v = [x for x in v if x in cand]
+    return "%s v=%s %s" % (w[0], ids(v), w[2])
 
 
 # ------------------------------------------------------------------ outlines
@@ -762,6 +811,32 @@ def gen_conv(rng, quick):
     return lines, models
 
 
+def gen_png(rng, quick):
+    """Pl_PNGFilter's constructor: parameter sets on both sides of every check it makes (none of the accepted ones allocates
+    more than a few MB: the set with bpr = 2^32 - 1 allocates NOTHING, which is the finding D-C04-png-row-wrap)"""
+    cases = []
+    for dec in "de":
+        for limit, cols, spp, bps in [(0, 1431655765, 3, 8), (0, 1431655766, 3, 8), (0, 4294967295, 1, 8), (0, 4294967295, 1, 16), (0, 4294967295, 2, 4),
+                                      (0, 0, 268435455, 16), (0, 1, 268435456, 16), (0, 1, 4294967295, 16), (0, 0, 1, 8), (0, 1, 0, 8),
+                                      (0, 1, 1, 0), (0, 1, 1, 3), (0, 1, 1, 32), (0, 7, 1, 1), (0, 8, 1, 1), (0, 9, 1, 1), (0, 65536, 4, 16),
+                                      (1000, 500, 1, 8), (1000, 501, 1, 8), (1000, 4000, 1, 1), (1000, 4001, 1, 1), (1, 1, 1, 8), (2, 1, 1, 8), (3, 1, 1, 8),
+                                      (1000000, 500000, 1, 8), (1000000, 500001, 1, 8), (1000000, 1431655765, 3, 8), (4294967295, 1431655765, 3, 8)]:
+            cases.append((dec, limit, cols, spp, bps))
+        for _ in range(20 if quick else 400):
+            limit = rng.choice([0, 0, 10, 1000, 65536])
+            bps = rng.choice([1, 2, 4, 8, 16, 16, 7, 0])
+            spp = rng.choice([0, 1, 1, 3, 4, 255])
+            want = rng.choice([0, 1, 2, limit // 2, limit // 2 + 1, 40000, 1 << 32, (1 << 32) - 1, (1 << 32) + 5])
+            cols = min((want * 8) // max(bps * spp, 1) + rng.choice([0, 0, 1]), (1 << 32) - 1)
+            bpr = (cols * bps * spp + 7) // 8
+            if 3000000 < bpr < (1 << 32) - 1 and not (limit and bpr > limit // 2):
+                continue                                       # would really allocate that much
+            cases.append((dec, limit, cols, spp, bps))
+    lines = ["c4png %s %d %d %d %d" % c for c in cases]
+    models = ["c4png 0 %d %s %s %s %s" % (1 if c[0] == "d" else 0, zbits(c[1]), zbits(c[2]), zbits(c[3]), zbits(c[4])) for c in cases]
+    return cases, lines, models
+
+
 def conv_canon_model(out):
     w = out.split()
     return " ".join(str(unzbits(x)) if (x[0] in "b-" or x == "0") and i > 0 and w[i - 1] == "ok" else x for i, x in enumerate(w))
@@ -769,29 +844,52 @@ def conv_canon_model(out):
 
 # ------------------------------------------------------------------ running qpdf with caps
 
+OUT_LIMIT_KB = 20000                 # stdout + stderr + output files of one run (ulimit -f): an endless stream of warnings is cut here
+_seq = itertools.count()
+
+
+def cpu_cap(size):
+    """hard CPU limit of one run (ulimit -t): a few times the budget, so that a hang costs seconds, not WALL_TIMEOUT"""
+    return int(3 * (CPU_BUDGET[0] + CPU_BUDGET[1] * size)) + 1
+
+
 def run_qpdf_capped(exe, args, path, asan=False):
-    """returns (rc, stdout, stderr, cpu seconds, max RSS kB, wall).  rc -999: wall-clock timeout (killed)."""
-    cmd = "ulimit -s 65536; %sexec /usr/bin/time -f 'C4TIME %%U %%S %%M' timeout -s KILL %d %s %s %s" % (
-        "" if asan else "ulimit -v %d; " % VMEM_KB, WALL_TIMEOUT, exe, " ".join(args), path)
+    """returns (rc, stdout, stderr, cpu seconds, max RSS kB, wall).  rc -999: killed at the wall-clock or CPU limit (hang),
+    rc -998: killed at the output limit (still writing messages after OUT_LIMIT_KB)."""
+    size = os.path.getsize(path) if os.path.exists(path) else 0
+    base = "%s.run%d" % (path, next(_seq))
+    fo, fe, ft = base + ".out", base + ".err", base + ".time"
+    cmd = "ulimit -s 65536; ulimit -f %d; %s%sexec /usr/bin/time -o %s -f 'C4TIME %%U %%S %%M' timeout -s KILL %d %s %s %s > %s 2> %s" % (
+        OUT_LIMIT_KB, "" if asan else "ulimit -v %d; " % VMEM_KB, "ulimit -t %d; " % (cpu_cap(size) * (5 if asan else 1)), ft, WALL_TIMEOUT, exe,
+        " ".join(args), path, fo, fe)
     env = dict(os.environ)
     env.pop("QPDF_CRYPTO_PROVIDER", None)
     if asan:
         env.update({"ASAN_OPTIONS": "detect_leaks=1:abort_on_error=0:exitcode=99:allocator_may_return_null=1",
                     "UBSAN_OPTIONS": "print_stacktrace=1:halt_on_error=1:exitcode=98"})
     t = time.time()
-    p = subprocess.run(["bash", "-c", cmd], stdout=subprocess.PIPE, stderr=subprocess.PIPE, env=env)
+    p = subprocess.run(["bash", "-c", cmd], stdout=subprocess.DEVNULL, stderr=subprocess.DEVNULL, env=env)
     wall = time.time() - t
-    se = p.stderr
+
+    def slurp(f):
+        try:
+            with open(f, "rb") as h:
+                d = h.read()
+            os.unlink(f)
+            return d
+        except OSError:
+            return b""
+    so, se, tm = slurp(fo), slurp(fe), slurp(ft)
     cpu, rss = 0.0, 0
-    m = re.search(rb"C4TIME ([\d.]+) ([\d.]+) (\d+)\s*$", se)
+    m = re.search(rb"C4TIME ([\d.]+) ([\d.]+) (\d+)\s*$", tm)
     if m:
         cpu, rss = float(m.group(1)) + float(m.group(2)), int(m.group(3))
-        se = se[:m.start()]
-    se = re.sub(rb"Command (exited with non-zero status|terminated by signal) \d+\n", b"", se)
     rc = p.returncode
-    if rc == 137 or wall >= WALL_TIMEOUT:
+    if rc == 137 or wall >= WALL_TIMEOUT or rc == 152 or rc == -24:
         rc = -999
-    return rc, p.stdout, se, cpu, rss, wall
+    elif rc == 153 or rc == -25:
+        rc = -998
+    return rc, so, se, cpu, rss, wall
 
 
 SAN_RE = re.compile(rb"ERROR: (AddressSanitizer|LeakSanitizer|UndefinedBehaviorSanitizer)|runtime error:|SUMMARY: \w*Sanitizer", re.M)
@@ -831,6 +929,8 @@ def run_part(chk, quick):
         elif c["kind"] == "xref":
             data, sec_off, copy50, fs = xref_pdf(c)
             c["_x"] = (sec_off, copy50)
+            c["_cand"] = xref_candidates(c, sec_off, fs)
+            c["_hex"] = data.hex()
             ml = xref_model_line(c, sec_off, fs)
         elif c["kind"] == "outl":
             data = outl_pdf(c); ml = outl_model_line(c)
@@ -867,7 +967,7 @@ def run_part(chk, quick):
         if c["kind"] == "pages":
             exp = pages_expect(mo)
         elif c["kind"] == "xref":
-            exp = xref_expect(c, mo, *c["_x"])
+            exp, c["_walk"] = xref_expect(c, mo, *c["_x"])
         elif c["kind"] == "outl":
             exp = outl_expect(mo)
         else:
@@ -881,7 +981,11 @@ def run_part(chk, quick):
             recon_max = max(recon_max, se.count(b"Attempting to reconstruct cross-reference table"))
             why = None
             if rc == -999:
-                why = "hang: killed after %d s wall" % WALL_TIMEOUT
+                why = "hang: killed at the CPU limit (%d s for %d bytes; budget %.2f s) or after %d s wall; cpu %.1f s, wall %.1f s" % (
+                    cpu_cap(size), size, CPU_BUDGET[0] + CPU_BUDGET[1] * size, WALL_TIMEOUT, cpu, wall)
+            elif rc == -998:
+                why = "hang: still writing messages after %d kB of output (an endless stream of warnings); last: %s" % (
+                    OUT_LIMIT_KB, se[-300:].decode("latin-1").strip().split("\n")[-1][:160])
             elif rc < 0 or rc >= 128 or rc in (98, 99):
                 why = "signal/abort rc=%d" % rc
             elif INTERNAL_RE.search(se):
@@ -900,10 +1004,38 @@ def run_part(chk, quick):
                 fails.append((c, files[i][0], why, (args, rc, se[-600:].decode("latin-1"))))
         if obs != exp:
             diffs.append((c, files[i][0], obs, exp, mlines[i]))
+    # ---- read_xref in process: the offsets it is asked to read, in order, the outcome and the white-space warnings against the
+    #      model's `visited` (an input source that records them; it ends a walk that exceeds 4 x sections + 8 reads)
+    xi = [i for i, c in enumerate(cases) if c["kind"] == "xref" and "_walk" in c]
+    xl = ["c4xwalk %s %d" % (cases[i]["_hex"], 4 * len(cases[i]["secs"]) + 8) for i in xi]
+    xo = run_driver_lines(drv, xl, fails, "c4xwalk")
+    xcats = {}
+    for i, o in zip(xi, xo):
+        c = cases[i]
+        if o.startswith(("?", "!")):
+            fails.append((c, files[i][0], "driver (c4xwalk): " + o[:300], None)); continue
+        got = xref_walk_observed(o, c["_cand"])
+        xcats[got.split()[0]] = xcats.get(got.split()[0], 0) + 1
+        if got.split()[0] == "runaway":
+            fails.append((c, files[i][0], "hang: Objects::read_xref follows /Prev for ever: more than %d cross-reference sections read in a file that has %d "
+                          "(offsets asked for: %s ...); the model reports `%s`" % (4 * len(c["secs"]) + 8, len(c["secs"]), got.split()[1][2:80], c["_walk"]),
+                          (["--check"], None, "")))
+        elif got != c["_walk"]:
+            diffs.append((c, files[i][0], got, c["_walk"], mlines[i]))
+    chk.count("guards-xref-walk", len(xl), set(xl))
+    chk.cov["parts"]["guards-xref-walk"]["outcome_categories"] = xcats
+    # a run that was stopped by the WALL clock while its CPU time stayed inside the budget (a stall of the machine, not of qpdf)
+    # is run again alone; a hang by CPU or output limit is not
+    wall_only = [f for f in fails if f[3] and f[3][1] == -999 and "hang: killed" in f[2] and float(re.search(r"cpu ([\d.]+) s", f[2]).group(1)) < 1.0]
+    if 0 < len(wall_only) <= 8:
+        for f in wall_only:
+            rc, so, se, cpu, rss, wall = run_qpdf_capped(exe, f[3][0], f[1])
+            if rc not in (-999, -998):
+                fails.remove(f)
     # budget overruns are re-run alone before they count
     for c, (p, size), args in over:
         rc, so, se, cpu, rss, wall = run_qpdf_capped(exe, args, p)
-        if cpu > CPU_BUDGET[0] + CPU_BUDGET[1] * size or rss > RSS_BUDGET[0] + RSS_BUDGET[1] * size or rc == -999:
+        if cpu > CPU_BUDGET[0] + CPU_BUDGET[1] * size or rss > RSS_BUDGET[0] + RSS_BUDGET[1] * size or rc in (-999, -998):
             fails.append((c, p, "time/memory out of proportion to the input: cpu %.2f s, rss %d kB for %d bytes (budget %.2f s, %d kB)" % (
                 cpu, rss, size, CPU_BUDGET[0] + CPU_BUDGET[1] * size, RSS_BUDGET[0] + RSS_BUDGET[1] * size), (args, rc, se[-300:].decode("latin-1"))))
     chk.count("guards-cli", sum(len(s) for _, s in res), nontriv,
@@ -912,12 +1044,20 @@ def run_part(chk, quick):
     chk.cov["parts"]["guards-cli"]["max_reconstructions_seen"] = recon_max
 
     # ---- a sample of the same files under ASan+UBSan (stack overflow / memory errors of a missing guard)
-    sample = [i for i, c in enumerate(cases) if c["tag"] != "random"] + list(range(0, len(cases), 9 if quick else 3))
+    sample = [i for i, c in enumerate(cases) if c["tag"] != "random" and not (quick and c["tag"].startswith("ws-") and i % 4)] + list(range(0, len(cases), 9 if quick else 3))
     argsof = {"pages": ["--show-pages"], "xref": ["--show-xref"], "outl": ["--json", "--json-key=outlines"], "acro": ["--json", "--json-key=acroform"]}
+    failed_files = set(f[1] for f in fails)
+    sample = [i for i in sample if files[i][0] not in failed_files]         # a file that already hangs / fails is not run again
     if os.path.exists(asan_exe):
         def runasan(i):
             return run_qpdf_capped(asan_exe, argsof[cases[i]["kind"]], files[i][0], asan=True)
         ares = common.par_map(runasan, sample, workers=4)
+        stalled = [k for k, r in enumerate(ares) if r[0] == -999]
+        if 0 < len(stalled) <= 8:
+            # a run killed at a time limit is run again alone before it counts (a stall of the machine hits a few runs at once;
+            # a real hang comes back)
+            for k in stalled:
+                ares[k] = runasan(sample[k])
         for i, (rc, so, se, cpu, rss, wall) in zip(sample, ares):
             if rc == -999 or rc < 0 or rc >= 128 or rc in (98, 99) or SAN_RE.search(se) or INTERNAL_RE.search(se):
                 fails.append((cases[i], files[i][0], "ASan+UBSan run did not end in a documented way (rc=%s)" % rc, (argsof[cases[i]["kind"]], rc, se[-1200:].decode("latin-1"))))
@@ -1049,6 +1189,27 @@ def run_part(chk, quick):
                 diffs.append(({"kind": "conv", "tag": "conv"}, None, o, exp, l))
     chk.count("guards-conversions", len(cl), set(cl))
     chk.cov["parts"]["guards-conversions"]["out_of_range_cases"] = nrange
+    # ---- Pl_PNGFilter's constructor: accepted / refused = model; an accepted parameter set whose row buffers are smaller than a
+    #      row (the uint32_t addition bytes_per_row + 1 wraps) is the property failing (D-C04-png-row-wrap)
+    pcases, plines, pmodels = gen_png(rng, quick)
+    pouts = run_driver_lines(drv, plines, fails, "c4png")
+    pmo = common.run_lines(model, pmodels)
+    wrapped = 0
+    for c, l, o, mo in zip(pcases, plines, pouts, pmo):
+        if o.startswith(("?", "!")):
+            continue
+        if o.split(":")[0] != mo.split()[0]:
+            diffs.append(({"kind": "png", "tag": "ctor"}, None, o, mo, l))
+        elif mo.startswith("ok"):
+            kv = dict(x.split("=") for x in mo.split()[1:])
+            if unzbits(kv["alloc"]) != unzbits(kv["bpr"]) + 1:
+                wrapped += 1
+                if wrapped == 1:
+                  fails.append(({"kind": "png", "tag": "row-wrap"}, None, "internal: Pl_PNGFilter(%s, columns=%d, samples_per_pixel=%d, bits_per_sample=%d) with png_max_memory=%d "
+                              "is accepted with bytes_per_row = %d, but its row buffers are allocated with (uint32_t)(bytes_per_row + 1) = %d elements: "
+                              "the first row written reads and writes outside them" % (c[0], c[2], c[3], c[4], c[1], unzbits(kv["bpr"]), unzbits(kv["alloc"])), None))
+    chk.count("guards-png-constructor", len(plines), set(plines))
+    chk.cov["parts"]["guards-png-constructor"]["accepted_with_wrapped_row_buffer"] = wrapped
     # ---- one-shot reconstruction: the counter machine against the bound, for random event sequences
     rl = []
     for _ in range(200):
@@ -1101,13 +1262,26 @@ def _drv(drv, lines, timeout):
 
 
 def report(chk, diffs, fails):
-    for c, p, why, detail in fails[:6]:
+    shown = {}
+    # different reasons first (a hang by CPU limit, by output limit, in process ...), so that the four reports per kind differ
+    firsts, rest, seen_why = [], [], set()
+    for f in fails:
+        k = (f[0].get("kind"), re.sub(r"[\d.]+", "#", f[2])[:40])
+        (rest if k in seen_why else firsts).append(f)
+        seen_why.add(k)
+    for c, p, why, detail in firsts + rest:
+        shown[c.get("kind")] = shown.get(c.get("kind"), 0) + 1
+        if shown[c.get("kind")] > 4:                  # at most four reports per kind of case
+            continue
         cat = ("time" if why.startswith(("time", "time/memory")) else "hang" if why.startswith("hang") else "signal" if why.startswith("signal")
                else "internal" if why.startswith("internal") else "exit" if why.startswith("exit") else "other")
         sig = "c04:guards:%s:%s:%s" % (c.get("kind"), c.get("tag"), cat)
         rep = {"kind": "property-fails-on-implementation", "part": "guards", "why": why, "case_kind": c.get("kind"), "tag": c.get("tag"), "input": p}
         if p and os.path.exists(p):
             rep["input_hex_prefix"] = open(p, "rb").read()[:300].hex()
+            if os.path.getsize(p) <= 8000:
+                rep["input_hex"] = open(p, "rb").read().hex()          # small inputs travel with the replay (the work directory is wiped by the next run)
+        rep["failing_cases_of_this_kind"] = sum(1 for f in fails if f[0].get("kind") == c.get("kind"))     # at most four of them are reported
         if detail:
             rep["argv"] = ["qpdf"] + list(detail[0]); rep["exit"] = detail[1]; rep["stderr_tail"] = detail[2]
         chk.violation(rep, signature=sig)
